@@ -199,7 +199,7 @@ pub fn supertype_fn(info: &LangInfo, st: Option<&'static str>) -> impl Fn(&XTree
         if let Some(p) = n.parent {
             let pk = lang.node_kind_for_id(xt.nodes[p].kind_id).unwrap_or("");
             // (likewise below pragma and sigil_decl: the grammar uses `identifier` there directly, not through `_expr`)
-            if pk == "fn_def" || pk == "params" || pk == "pragma" || pk == "sigil_decl" || pk == "use_stmt" { return false; }
+            if pk == "fn_def" || pk == "params" || pk == "pragma" || pk == "sigil_decl" || pk == "use_stmt" || pk == "path_list" { return false; }
         }
         true
     }
